@@ -243,7 +243,7 @@ def compare_lines(ops, impl, model, mod=None, spec=None):
 
 def run_harness(binp, mode, spec, args, outdir, timeout):
     os.makedirs(outdir, exist_ok=True)
-    cmd = [binp, mode, "--prop", spec["id"]] + args + ["--out", outdir]
+    cmd = [binp, mode, "--prop", spec.get("prop_arg", spec["id"])] + args + ["--out", outdir]
     try:
         r = sh(cmd, cwd=VERIF, timeout=timeout, env={"VERIF_REPO": REPO})
         return r.returncode, r.stdout[-4000:]
@@ -353,13 +353,16 @@ def write_evidence(spec, tier, seed, level, coverage, assumptions, wall, violati
     json.dump(ev, open(os.path.join(d, spec["id"] + ".json"), "w"), indent=1)
 
 
-def run_check(pid, tier="quick", seed=None, replay=None):
+def run_check_single(pid, tier="quick", seed=None, replay=None, spec_override=None, mod_override=None, suffix=""):
     t0 = time.time()
-    spec, mod = load_spec(pid)
+    if spec_override is not None:
+        spec, mod = spec_override, mod_override
+    else:
+        spec, mod = load_spec(pid)
     if seed is None:
         seed = int(os.environ.get("VERIF_SEED", "20260921"))
     tier = os.environ.get("VERIF_TIER", tier) if tier is None else tier
-    work = os.path.join(VERIF, ".work", pid)
+    work = os.path.join(VERIF, ".work", pid + suffix)
     shutil.rmtree(work, ignore_errors=True)
     os.makedirs(work, exist_ok=True)
     findings = [f for f in load_findings() if f.get("property") == pid]
@@ -375,14 +378,13 @@ def run_check(pid, tier="quick", seed=None, replay=None):
     if not ok:
         log("harness build FAILED:\n" + tail)
         # The harness is our machinery; if /repo's API changed under it we cannot tie the model to the code.
-        rp = write_replay(spec, "%s-%d-harness-build.json" % (pid, seed),
+        rp = write_replay(spec, "%s%s-%d-harness-build.json" % (pid, suffix, seed),
                           {"property": pid, "broken": {"stream": "harness build", "log_tail": tail}})
         cov = {"explanation": "harness failed to build against the current tree; correspondence cannot be checked",
                "obligations": pv["obligations"], "discharged": pv["discharged"], "checker_cmd": pv["checker_cmd"],
                "trusted_base": [], "evaluations": 0, "distinct_nontrivial": 0}
-        write_evidence(spec, tier, seed, "other", cov, spec.get("assumptions", []), time.time() - t0, 1)
         print("VIOLATION property=%s replay=%s no-failing-input-found" % (pid, rp))
-        return 1
+        return 1, "other", cov, 1
 
     if replay:
         rj = json.load(open(replay))
@@ -394,7 +396,7 @@ def run_check(pid, tier="quick", seed=None, replay=None):
             log("  oracle: " + json.dumps(o)[:400])
         for d in dis[:5]:
             log("  diff: " + json.dumps(d)[:400])
-        return 1 if (oracle or dis) else 0
+        return (1 if (oracle or dis) else 0), spec.get("level", "other"), {}, len(oracle)
 
     tcfg = spec.get(tier, {})
     gen_args = ["--seed", str(seed), "--tier", tier] + list(tcfg.get("extra_args", []))
@@ -461,8 +463,8 @@ def run_check(pid, tier="quick", seed=None, replay=None):
         case_ops = ops[a:b]
         key = first.get("key")
         small, tries = shrink_case(spec, mod, binp, case_ops, lambda orc, ds: any(o.get("key") == key for o in orc), work, shrink_budget)
-        rp = write_replay(spec, "%s-%d-oracle.json" % (pid, seed), {
-            "property": pid, "tier": tier, "seed": seed, "kind": "oracle-violation", "key": key,
+        rp = write_replay(spec, "%s%s-%d-oracle.json" % (pid, suffix, seed), {
+            "property": pid, "run": suffix.lstrip("-"), "tier": tier, "seed": seed, "kind": "oracle-violation", "key": key,
             "ops": small, "original_case_ops": len(case_ops), "shrink_tries": tries,
             "oracle": first, "all_unlisted_keys": sorted({o.get("key", "?") for o in unknown}),
             "replay_cmd": "./check %s --replay <this file>" % pid})
@@ -494,8 +496,8 @@ def run_check(pid, tier="quick", seed=None, replay=None):
         if found:
             key = found[0].get("key")
             small, tries = shrink_case(spec, mod, binp, found[1], lambda orc, ds: any(o.get("key") == key for o in orc), work, shrink_budget)
-            rp = write_replay(spec, "%s-%d-oracle.json" % (pid, seed), {
-                "property": pid, "tier": tier, "seed": seed, "kind": "oracle-violation(found by enlarged search)",
+            rp = write_replay(spec, "%s%s-%d-oracle.json" % (pid, suffix, seed), {
+                "property": pid, "run": suffix.lstrip("-"), "tier": tier, "seed": seed, "kind": "oracle-violation(found by enlarged search)",
                 "key": key, "ops": small, "oracle": found[0], "broken": broken})
             print("VIOLATION property=%s replay=%s" % (pid, rp), flush=True)
         else:
@@ -503,8 +505,8 @@ def run_check(pid, tier="quick", seed=None, replay=None):
             if dis:
                 a, b = case_of(dis[0]["line"])
                 small, tries = shrink_case(spec, mod, binp, ops[a:b], lambda orc, ds: len(ds) > 0, work, shrink_budget)
-            rp = write_replay(spec, "%s-%d-broken.json" % (pid, seed), {
-                "property": pid, "tier": tier, "seed": seed, "kind": "proof-or-correspondence-broken",
+            rp = write_replay(spec, "%s%s-%d-broken.json" % (pid, suffix, seed), {
+                "property": pid, "run": suffix.lstrip("-"), "tier": tier, "seed": seed, "kind": "proof-or-correspondence-broken",
                 "broken": broken, "ops": small,
                 "note": "no input violating the property itself was found; the named theorem(s)/stream no longer check, so the property is no longer shown to hold"})
             print("VIOLATION property=%s replay=%s no-failing-input-found" % (pid, rp), flush=True)
@@ -540,8 +542,51 @@ def run_check(pid, tier="quick", seed=None, replay=None):
             cov[k] = v
     if level == "proof" and pv["discharged"] != pv["obligations"]:
         level = "other"
-    write_evidence(spec, tier, seed, level, cov, spec.get("assumptions", []), time.time() - t0, violations)
-    log("== %s done in %.1fs: %s" % (pid, time.time() - t0, "OK" if rc_final == 0 else "VIOLATION"))
     if rc_final == 0:
         shutil.rmtree(work, ignore_errors=True)
-    return rc_final
+    return rc_final, level, cov, violations
+
+
+def run_check(pid, tier="quick", seed=None, replay=None):
+    """main run + the spec's `extra_runs` (other harness/driver pairs serving the same property)"""
+    t0 = time.time()
+    spec, mod = load_spec(pid)
+    if seed is None:
+        seed = int(os.environ.get("VERIF_SEED", "20260921"))
+    if replay:
+        rj = json.load(open(replay))
+        run_name = rj.get("run", "")
+        if run_name:
+            for k, ex in enumerate(spec.get("extra_runs", [])):
+                if ex.get("name", "x%d" % k) == run_name:
+                    sub = dict(spec); sub.update(ex)
+                    return run_check_single(pid, tier, seed, replay, sub, mod, "-" + run_name)[0]
+        return run_check_single(pid, tier, seed, replay)[0]
+    rc, level, cov, violations = run_check_single(pid, tier, seed, None)
+    extras = []
+    for k, ex in enumerate(spec.get("extra_runs", [])):
+        sub = dict(spec)
+        sub.update(ex)
+        sub["extra_runs"] = []
+        name = ex.get("name", "x%d" % k)
+        rc2, level2, cov2, v2 = run_check_single(pid, tier, seed, None, sub, mod, "-" + name)
+        rc = max(rc, rc2)
+        violations += v2
+        extras.append({"run": name, "group": sub.get("group"), "lean_project": sub.get("lean_project"),
+                       **{kk: cov2.get(kk) for kk in ("obligations", "discharged", "evaluations", "distinct_nontrivial", "rule",
+                                                      "op_lines", "disagreements", "oracle_violations", "oracle_violations_unlisted",
+                                                      "known_findings_hit", "histogram", "broken_obligations", "checker_cmd", "samples")}})
+        # totals
+        cov["evaluations"] = cov.get("evaluations", 0) + (cov2.get("evaluations") or 0)
+        cov["distinct_nontrivial"] = cov.get("distinct_nontrivial", 0) + (cov2.get("distinct_nontrivial") or 0)
+        cov["disagreements_checked"] = cov.get("disagreements_checked", 0) + (cov2.get("disagreements_checked") or 0)
+        if sub.get("props_module") != spec.get("props_module"):
+            cov["obligations"] = cov.get("obligations", 0) + (cov2.get("obligations") or 0)
+            cov["discharged"] = cov.get("discharged", 0) + (cov2.get("discharged") or 0)
+    if extras:
+        cov["extra_runs"] = extras
+    if level == "proof" and cov.get("discharged") != cov.get("obligations"):
+        level = "other"
+    write_evidence(spec, tier, seed, level, cov, spec.get("assumptions", []), time.time() - t0, violations)
+    log("== %s done in %.1fs: %s" % (pid, time.time() - t0, "OK" if rc == 0 else "VIOLATION"))
+    return rc
